@@ -284,6 +284,18 @@ def _all_paths_store(stmts, X: str) -> bool:
     return False
 
 
+def _row_views(loop: ast.For, X: str):
+    it, tg = loop.iter, loop.target
+    pairs = []
+    if isinstance(it, ast.Name):
+        pairs = [(tg, it)]
+    elif isinstance(it, ast.Call) and isinstance(it.func, ast.Name) and it.func.id == "zip" and isinstance(tg, ast.Tuple) and len(tg.elts) == len(it.args):
+        pairs = list(zip(tg.elts, it.args))
+    elif isinstance(it, ast.Call) and isinstance(it.func, ast.Name) and it.func.id == "enumerate" and it.args and isinstance(tg, ast.Tuple) and len(tg.elts) == 2:
+        pairs = [(tg.elts[1], it.args[0])]
+    return [t_.id for t_, src_ in pairs if isinstance(t_, ast.Name) and isinstance(src_, ast.Name) and src_.id == X]
+
+
 def _reads(node, X: str):
     """Name nodes that read X inside `node`, except as the base of a store target."""
     skip = set()
@@ -326,8 +338,11 @@ def _scan(stmts, X: str, init: bool, argsort_names: set):
                 rd = [n for b_ in s_.body for n in _reads(b_, X)]
                 if rd:
                     return init, rd[0], False
-                if isinstance(s_, ast.For) and _all_paths_store(s_.body, X):
-                    init = True
+                if isinstance(s_, ast.For):
+                    # rows handed out by iterating X itself (for row in X / zip(X, ..) / enumerate(X)) are views: a store through them is a store into X
+                    views = _row_views(s_, X)
+                    if _all_paths_store(s_.body, X) or any(_all_paths_store(s_.body, v_) for v_ in views):
+                        init = True
             continue
         if isinstance(s_, ast.If):
             rd = _reads(s_.test, X)
